@@ -53,7 +53,7 @@
      * polling the value channel of anything but an "eof" channel (result "skip": not executed).
      * very large non-negative destinations (the table grows; the generator stays <= 64).
    The form's own head is the harness command vw:do (never raises) or, in V, a real builtin
-   (echo/print/put) whose single write raises when it fails: then exc = "body".
+   (print/put) whose single write raises when it fails: then exc = "body".
 
    ============================ PART 2: resources (C40) ============================
    see below (program shapes, the set `open`, EvalReturn => open = {}).                          *)
